@@ -13,7 +13,7 @@
 (***************************************************************************)
 EXTENDS SdcAlgebra, Json
 
-CONSTANTS MODE, KINDS, MS, NS, DTS, RANDOM, EXPORT, EXPORTMOD, WITHB, H1
+CONSTANTS MODE, KINDS, MS, NS, DTS, RANDOM, EXPORT, EXPORTMOD, WITHB, H1, RNCU, WANY, TAUS
 
 VARIABLES stage, inst
 
@@ -37,7 +37,8 @@ RcMats(Mc, Mf) == IF H1 THEN {[k \in 1 .. Mc |-> FixRow(x[k])] : x \in PickMat(M
 
 Init ==
     /\ stage = 0
-    /\ \E kind \in KINDS, M \in MS, n \in NS, dt \in DTS, rn \in BOOLEAN, cu \in BOOLEAN :
+    /\ \E kind \in KINDS, M \in MS, n \in NS, dt \in DTS, rc \in RNCU :
+       LET rn == rc \in {"TF", "TT"} cu == rc \in {"TT", "FT"} IN
        \E A \in PickMat(n, n), B \in (IF WITHB THEN PickMat(n, n) ELSE {ZeroMat(n)}), c \in (IF WITHB THEN Pick(Zp) ELSE {0}) :
           /\ (kind = "impl" => (B = ZeroMat(n) /\ c = 0))
           /\ inst = [kind |-> kind, M |-> M, n |-> n, dt |-> dt, rightnode |-> rn, collupdate |-> cu, A |-> A, B |-> B, c |-> c]
@@ -46,7 +47,10 @@ Stage1 ==
     /\ stage = 0
     /\ stage' = 1
     /\ LET M == inst.M IN
-       \E Q \in PickMat(M, M), QI \in LowerMats(M), QE \in StrictLowerMats(M), w \in PickVec(M) :
+       \E Q \in PickMat(M, M),
+          QI \in (IF inst.kind = "expl" THEN {ZeroMat(M)} ELSE LowerMats(M)),
+          QE \in (IF inst.kind = "impl" THEN {ZeroMat(M)} ELSE StrictLowerMats(M)) :
+       \E w \in (IF WANY THEN PickVec(M) ELSE {Q[M]}) :
           IF MODE = "sweep"
           THEN inst' = inst @@ [Q |-> Q, QI |-> QI, QE |-> QE, w |-> w]
           ELSE \E Mc \in {m \in MS : m <= M}, nc \in {k \in NS : k <= inst.n} :
@@ -63,7 +67,8 @@ Stage2 ==
     /\ stage = 1
     /\ stage' = 2
     /\ \E u0 \in PickVec(inst.n), U \in (IF RANDOM THEN {[m \in 1 .. inst.M |-> RandVec(inst.n)]} ELSE [1 .. inst.M -> Vecs(inst.n)]),
-          tau \in {<<>>} \cup (IF RANDOM THEN {[m \in 1 .. inst.M |-> RandVec(inst.n)]} ELSE [1 .. inst.M -> Vecs(inst.n)]) :
+          tau \in (IF "none" \in TAUS THEN {<<>>} ELSE {}) \cup
+                  (IF "any" \in TAUS THEN (IF RANDOM THEN {[m \in 1 .. inst.M |-> RandVec(inst.n)]} ELSE [1 .. inst.M -> Vecs(inst.n)]) ELSE {}) :
           inst' = inst @@ [u0 |-> u0, U |-> U, tau |-> tau]
 
 Next == Stage1 \/ Stage2 \/ (stage = 2 /\ UNCHANGED vars)
